@@ -669,7 +669,8 @@ def main():
         },
         "thinned": None if chk.thorough else
         "quick: one insertion place per character (middle; leading for - ~ #), no two-character "
-        "insertions, no position pairs, nested-rsp carrier for 4 of 7 positions",
+        "insertions, no position pairs, nested-rsp carrier for 4 of 7 positions (the option-like "
+        "argument sub-family is complete in both tiers)",
     }
     chk.assumptions = [
         "`--no-fork --threads=1` is part of every member's argument list and RAYON_NUM_THREADS=1 "
